@@ -128,6 +128,9 @@ CONTEXTS = {
     'dictv': lambda t, mb: dct(leaf('str'), t),
     'dictk': lambda t, mb: dct(t, leaf('int')),
     'ddictv': lambda t, mb: dct(leaf('str'), t, dd=True),
+    'ddictk': lambda t, mb: dct(t, seq('list', leaf('int')), dd=True),
+    'odictv': lambda t, mb: dct(leaf('str'), t, od=True),
+    'odictk': lambda t, mb: dct(t, leaf('int'), od=True),
     'opt': lambda t, mb: opt(t),
     'optr': lambda t, mb: optr(t),
     'named': lambda t, mb: mb.named([('aa', leaf('int')), ('bb', t)]),
@@ -135,7 +138,7 @@ CONTEXTS = {
     'typedo': lambda t, mb: mb.typed([('rk', leaf('int'))], [('ok', t)]),
     'data': _ctx_data,
 }
-NEEDS_HASHABLE = {'set', 'frozenset', 'dictk'}
+NEEDS_HASHABLE = {'set', 'frozenset', 'dictk', 'ddictk', 'odictk'}
 
 
 def ctx_ok(name, t, model):
@@ -147,7 +150,7 @@ def ctx_ok(name, t, model):
                                  (t['k'] == 'seq' and t['kind'] in ('list', 'set')) or
                                  (t['k'] == 'dict' and not t['dd'])):
         return False
-    if name == 'dictk' and t['k'] == 'leaf' and t['l'] in ('none', 'nonebare', 'bool', 'float'):
+    if name in ('dictk', 'ddictk', 'odictk') and t['k'] == 'leaf' and t['l'] in ('none', 'nonebare', 'bool', 'float'):
         return False          # None / True / 1.0 keys: equal keys collapse (1 == True == 1.0)
     return True
 
@@ -163,9 +166,13 @@ def compose(ctxs, l, mb):
     return t
 
 
+JSON_KEY_LEAVES = ('str', 'int', 'uuid', 'bytes', 'decimal', 'path', 'date', 'time', 'datetime', 'timedelta', 'enum:Color')
+
+
 def json_keys_ok(t, model):
+    """dict keys whose dumped form is a JSON object key that loads back (text-valued dumps, ints)"""
     for s in G.subtypes(t, model):
-        if s['k'] == 'dict' and not (s['kt']['k'] == 'leaf' and s['kt']['l'] in ('str', 'int')):
+        if s['k'] == 'dict' and not (s['kt']['k'] == 'leaf' and s['kt']['l'] in JSON_KEY_LEAVES):
             return False
     return True
 
@@ -233,7 +240,7 @@ def gen_value(r, t, model, depth=0, neg_td=False):
         return ['T', [gen_value(r, x, model, depth + 1, neg_td) for x in t['ts']]]
     if k == 'dict':
         keys = distinct([gen_value(r, t['kt'], model, depth + 1, neg_td) for _ in range(n)])
-        return ['D', G.dd_factory(t['vt']) if t['dd'] else None,
+        return ['D', G.dd_factory(t['vt']) if t['dd'] else 'OrderedDict' if t.get('od') else None,
                 [[kk, gen_value(r, t['vt'], model, depth + 1, neg_td)] for kk in keys]]
     if k in ('opt', 'optr'):
         return ['N'] if r.random() < 0.3 else gen_value(r, t['t'], model, depth, neg_td)
@@ -272,7 +279,7 @@ def _recursive_escape(t):
 
 def _escape_value(t):
     return ['N'] if t['k'] == 'opt' else [G.SEQ_TAG[t['kind']], []] if t['k'] == 'seq' else \
-        ['D', G.dd_factory(t['vt']) if t['dd'] else None, []]
+        ['D', G.dd_factory(t['vt']) if t['dd'] else 'OrderedDict' if t.get('od') else None, []]
 
 
 def has_neg_td_any(x):
@@ -457,13 +464,55 @@ def build_cases(ctx):
                 cs = [r.choice(names) for _ in range(r.choice([0, 1, 2]))]
                 pack.append(('kc:%s/%s' % (kc, dump), cs, r.choice(ALL_LEAVES)))
             pack = [p for p in pack if _clean_pack(p)]
-            if pack:
-                flush(pack, kc, dump)
-                vn = VARIED_NAMES[:]
-                r.shuffle(vn)
-                flush(pack, kc, dump, names=vn)
+            # a nested dataclass (multi-word field names) in every key-case model: used for the histories
+            pack.insert(0, ('kc:%s/%s' % (kc, dump), ['data'] + [r.choice(['list', 'dictv', 'opt'])] * r.choice([0, 1]), r.choice(['int', 'str', 'date'])))
+            n0 = len(cases)
+            flush(pack, kc, dump)
+            vn = VARIED_NAMES[:]
+            r.shuffle(vn)
+            flush(pack, kc, dump, names=vn)
+            for j, (_, mbk) in enumerate(cases[n0:]):
+                mbk.m['history_kind'] = 'AB'[j % 2]
+    # tagged Unions of dataclasses (members possibly subsumed by one another), in every simple position;
+    # outside the Gallina model (direct predicates only)
+    for wi, wrap in enumerate(['id', 'opt', 'list', 'dictv', 'tup1', 'odictv', 'named']):
+        for variant in range(1 if quick else 3):
+            mbx = new_mb()
+            mbx.cls([])
+            a = mbx.cls([('leaf_val', leaf('int'), 'int0'), ('leaf_name', leaf('str'), 'str0')])            # all defaulted
+            b = mbx.cls([('leaf_val', leaf('int'), 'int0'), ('branch_kids', seq('list', union(data(a), data(a + 1))), 'list'),
+                         ('branch_note', opt(union(data(a), data(a + 1))), 'none')])                                # recursive, superset of a
+            u = union(data(a), data(b)) if variant != 1 else union(data(b), data(a))
+            t = u if wrap == 'id' else CONTEXTS[wrap](u, mbx)
+            mbx.m['classes'][0]['fields'] = [{'name': 'alpha', 'ty': t, 'default': None}, {'name': 'beta_val', 'ty': leaf('int'), 'default': None}]
+            mbx.m['load_meta'] = {'auto_assign_tags': True}
+            mbx.m['json'] = wrap != 'tup1' or True
+            cases.append(('tagged:%s(U[A,B])#%d' % (wrap, variant), mbx))
     # explicit shapes
     cases.extend(explicit_models(mi, r))
+    # annotation styles: plain names / every dataclass reference a string / `from __future__ import annotations`
+    for ci, (label, mb) in enumerate(cases):
+        st = ['plain', 'fwd', 'future'][ci % 3]
+        if st == 'future' and any(d['opt'] for d in mb.m['typed'].values()):
+            st = 'fwd'      # NotRequired[...] cannot be seen inside string annotations (typing limitation)
+        if st == 'fwd' and any(x['k'] == 'data' for d in mb.m['typed'].values() for _, t in d['opt'] for x in G.subtypes(t, mb.m)):
+            st = 'plain'    # NotRequired['Fwd']: the reference below the qualifier is not resolved (noted, not listed)
+        mb.m['ann_style'] = st
+    # histories inside one interpreter: a nested class is loaded on its own (keys as-is) before (A) or only
+    # after (B) it is used under the root; afterwards the root is used again
+    hn = 0
+    for label, mb in cases:
+        m = mb.m
+        if len(m['classes']) > 1 and m['classes'][1]['fields'] and not m.get('named_alias'):
+            hn += 1
+            if hn % 2 == 0 or m.get('history_kind'):
+                rh = ctx.sub_rng('hist', label, mb.mi)
+                inst = gen_inst(rh, 1, m, depth=3)
+                kind = m.pop('history_kind', None) or ('A' if (hn // 2) % 2 == 0 else 'B')
+                if m.get('key_case') not in (None, 'AUTO'):
+                    kind = 'A'      # B under an explicit key case: the root's Meta leaks into the nested class (F10, C07)
+                m['history'] = {'kind': kind, 'cls': 1, 'instance': inst,
+                                'doc': G.dump_doc(inst, data(1), {**m, 'key_case': None}, rh)}
     # instances
     for label, mb in cases:
         if mb.m['instances']:
@@ -599,7 +648,10 @@ def coq_exprs(cases, impl):
         if res.get('setup_err') or 'keys' not in res or res.get('gen_err'):
             continue
         m = mb.m
-        ct = G.coq_ct(m, res['keys'])
+        try:
+            ct = G.coq_ct(m, res['keys'])
+        except ValueError:
+            continue          # outside the Gallina model: direct predicates only
         try:
             tb = G.coq_oracle([(l, o, v, a) for l, o, v, a in res['oracle']])
         except ValueError:
@@ -755,6 +807,16 @@ def run(ctx):
                                        {'impl': res['fns'][fname]['toks'], 'model': mf[fname]['toks'],
                                         'source': res['fns'][fname]['source'][:1500]})
                 ctx.traces_validated += 1
+        # ---- history steps (direct predicate: the results do not depend on who used the nested class first)
+        for st in res.get('history') or []:
+            ctx.count(1, key='h:%s|%s' % (label, st['step']), nontrivial=True)
+            ctx.hist('history', '%s/%s/%s' % ((m.get('history') or {}).get('kind'), st['step'], 'ok' if st['ok'] else 'fails'))
+            if not st['ok'] and st['step'] == 'root again' and res['inst'] and inst_failure(res['inst'][0], m):
+                continue          # the same instance already fails without any history: reported / classified below
+            if not st['ok']:
+                ctx.violation('%s: history %s: step "%s" fails%s' % (label, m['history']['kind'], st['step'],
+                                                                     ' with %s' % st['err']['err'] if st.get('err') else ''),
+                              {'kind': 'model', 'label': label, 'model': m})
         # ---- instances
         for ii, (tree, ir) in enumerate(zip(m['instances'], res['inst'])):
             rp = {'kind': 'instance', 'label': label, 'model': {**m, 'instances': [tree], 'docs': []}}
